@@ -180,6 +180,7 @@ def build_world(sim, population, plan=None, settings=None, discover=True,
     injection.configure()
     cfg = dict(DEFAULT_SETTINGS)
     cfg.update(settings or {})
+    _installed['cfg'] = dict(cfg)
     settings_mod.using(cfg).configure()
     clock.configure()
     if output == 'stdout':
@@ -199,3 +200,16 @@ def build_world(sim, population, plan=None, settings=None, discover=True,
         ok = ls.discover()
     injection.bind_instance(ls).to(i_controller.LightSet)
     return net, ls, ok
+
+
+def start_refresh_thread():
+    """Start Bardolph's light-refresh thread the public way:
+    light_set.configure() with single_light_discover off (it discovers, starts
+    the thread and binds a new LightSet).  Returns that LightSet."""
+    from bardolph.lib import settings as settings_mod, injection
+    from bardolph.controller import light_set, i_controller
+    cfg = dict(_installed['cfg'])
+    cfg['single_light_discover'] = False
+    settings_mod.using(cfg).configure()
+    light_set.configure()
+    return injection.provide(i_controller.LightSet)
